@@ -33,6 +33,7 @@ _views = re.compile(r' v=\[([^\]]*)\]')
 _n = re.compile(r'\bn=(\d+)')
 _len = re.compile(r'\blen=(\d+)')
 _re = re.compile(r' re=(\S+?)\]?$')
+_errn = re.compile(r'err n=(-?\d+)')
 
 
 def strip_views(s):
@@ -101,11 +102,13 @@ def c04_oracle(op, impl, spec):
         return impl == spec
     if w[1] != 'dec':
         return impl != 'panic' and 'd[panic]' not in impl
-    if impl == 'err':
-        # a well-formed packet must be accepted
-        return not spec.startswith('ok ')
+    me = _errn.fullmatch(impl)
+    if me:
+        # an error return: its byte count lies in [0, len(input)], and a well-formed packet must be accepted
+        k = int(me.group(1))
+        return 0 <= k <= len(dec_input(op)) and not spec.startswith('ok ')
     if not impl.startswith('ok '):
-        return False                      # panic, or an error return with a byte count outside the input
+        return False                      # panic
     n = int(_n.search(impl).group(1))
     if n > len(dec_input(op)) or not views_inside(impl):
         return False
@@ -174,7 +177,9 @@ ASSUMPTIONS = [
     "(Uvarint/PutUvarint/BigEndian modelled arithmetically), regexp ^[[:print:]]{0,32}$ = at most 32 bytes in 0x20..0x7e",
     "lengths are naturals (int is 64 bit; messages of 2^31 bytes are unreachable); the 64-bit identifier counter and the "
     "int32 conversion of the remaining length are modelled exactly",
-    "error texts and the byte count of error returns are not modelled (the harness flags an error count outside [0, len])",
+    "error texts are not modelled; the byte count of an error return of Decode is modelled by a second function "
+    "(Model.Codec.decodeNewErrN: the positions of the error returns, written next to the decoders), printed as `err n=<count>` "
+    "by implementation and model alike and compared on every malformed input",
     "well-formed (WF) = structural MQTT 3.1.1 well-formedness over byte strings + the broker's client-id policy and the two "
     "supported protocol name/level pairs (DESIGN section 8); UTF-8 validity and topic-filter syntax are not required",
 ]
